@@ -94,6 +94,9 @@ def build_inputs(c, H, P, tracers, want_AB=True, want_shear=True):
         d = {}
         for k in CEN_PARAMS[t] + SAT_PARAMS[t]:
             d[k] = real_in(c, f'{t}.{k}')
+            if k.startswith('logM'):
+                # log10 masses in a range where 10**x is an ordinary double (witnesses must be replayable with the real pow)
+                c.assume(z3.And(d[k].e >= 8, d[k].e <= 16))
         tr[t] = d
     # non-negativity of the multiplicative factors of a slice width
     for t in tracers:
@@ -484,6 +487,19 @@ try:
 except Exception as ex:
     import traceback; traceback.print_exc()
     bad.append(f'gen_gals raised {{type(ex).__name__}}: {{ex}}'); out = None
+# the property itself, on the real function bodies: every column, the row order and Ncent are the same for every thread count
+if out is not None:
+    try:
+        for nt_ in (1, 2, 3, 4, 5, 6):
+            o2 = run(nt_)
+            for t in tracers:
+                for k in out[t]:
+                    a_, b_ = np.asarray(out[t][k]), np.asarray(o2[t][k])
+                    if a_.shape != b_.shape or not np.array_equal(a_, b_, equal_nan=True):
+                        bad.append(f'{{t}}.{{k}} differs between Nthread={{case["Nthread"]}} ({{a_.tolist()}}) and Nthread={{nt_}} ({{b_.tolist()}})'); break
+            if bad: break
+    except Exception as ex:
+        bad.append(f'gen_gals raised {{type(ex).__name__}}: {{ex}} for another thread count')
 # frame condition: the caller's dictionaries come back unchanged
 try:
     tr_in = {{t: dict(d) for t, d in tr_call.items()}}; par_in = dict(params)
